@@ -399,6 +399,15 @@ func (e *Exec) ensureInit(pkg *ssa.Package) (res *initResult) {
 		return nil
 	}
 	fs := outs[0].St
+	for g, id := range ids {
+		if mv, ok := fs.Heap[id].(*MapVal); ok && mv.Obj != 0 {
+			if ms := fs.Maps[mv.Obj]; ms != nil && ms.Name == "" {
+				ns := *ms
+				ns.Name = "global." + g.Name()
+				fs.Maps[mv.Obj] = &ns
+			}
+		}
+	}
 	res = &initResult{heap: fs.Heap, maps: fs.Maps, ids: ids, mutated: mutated}
 	e.inits[pkg] = res
 	return res
